@@ -5,12 +5,17 @@
    - UNIVERSAL: the documented resolution rule as decision-rule theorems about [Lalr.beats]/[Lalr.resolve]
      (the reference the dumped tables are compared with), and the soundness theorem for ANY table that
      passes the static safety check;
-   - PER INSTANCE (gen/inst_C06_*.v, evaluated by the kernel): the table dumped from
+   - UNIVERSAL: any table that passes [exact_check] (soundness + completeness + canonicity certificates,
+     computed and validated by the kernel) accepts EXACTLY the token sequences that have a parse tree allowed by
+     the directives (read as a classification of trees), builds that tree, and no sequence has two such trees;
+     without directives every parse tree is allowed: the table accepts exactly the grammar's sentences and the
+     grammar is unambiguous;
+   - PER INSTANCE (gen/inst_C06_*.v, evaluated by the kernel): exact_check for the dumped table; the table dumped from
      Spec.LALRParsingTable is, entry for entry, the reference LALR(1) table of the dumped grammar and
      precedence levels and passes the safety check — or, when emerge rejects, the reference construction
      leaves exactly the reported entries unresolved. *)
 From Coq Require Import String List Bool Arith NArith Lia.
-From Verif Require Import Cfg.LR Cfg.LRSafe Cfg.Lalr.
+From Verif Require Import Cfg.LR Cfg.LRSafe Cfg.Lalr Cfg.LRComplete Cfg.LRCanon Cfg.LRExact.
 Import ListNotations.
 Local Open Scope N_scope.
 
@@ -108,3 +113,24 @@ Theorem certified_table_is_sound :
               leaves t = combine toks (seq 0 (length toks)) /\ tr = post t.
 Proof. intros. eapply lr_callbacks_in_derivation_order; eauto. Qed.
 Print Assumptions certified_table_is_sound.
+
+(* any table that passes the three certificates parses EXACTLY the canonical trees, for inputs of any length *)
+Theorem certified_table_is_exact :
+  forall G tb eof err_state start past rules n,
+    exact_check G tb eof err_state start past rules n = true ->
+    forall toks, ~ In eof toks ->
+      ((exists fuel tr, LR.run G tb eof err_state toks EndOfInput fuel init = (tr, OAccept))
+       <-> exists t, canonical_sentence G start rules toks t) /\
+      (forall fin fuel tr, LR.run G tb eof err_state toks fin fuel init = (tr, OAccept) ->
+         exists t, canonical_sentence G start rules toks t /\ tr = post t /\ build G toks tr = [t]) /\
+      (forall t1 t2, canonical_sentence G start rules toks t1 -> canonical_sentence G start rules toks t2 -> t1 = t2).
+Proof. exact exact_check_sound. Qed.
+Print Assumptions certified_table_is_exact.
+
+(* without directives every parse tree is canonical: a certified table accepts exactly the grammar's sentences *)
+Theorem without_directives_every_tree_is_canonical :
+  forall G start toks t,
+    canonical_sentence G start (trivial_rules G) toks t <->
+    (wf_tree G t /\ root G t = NT start /\ leaves t = combine toks (seq 0 (length toks))).
+Proof. exact trivial_canonical. Qed.
+Print Assumptions without_directives_every_tree_is_canonical.
